@@ -1788,7 +1788,7 @@ fn emit_load_stack_offset(offset: i8, exec: &mut [u8]) -> usize {
 }
 
 fn emit_memory_read(exec: &mut [u8], memory_base: usize, indirect_address: X86Reg16, dest_register: X86Reg8) -> usize {
-  let fn_pointer = address_as_bytes(crate::mem::memory_read_byte as u64);
+  let fn_pointer = address_as_bytes(bus_read_byte as u64);
   let address_source = match indirect_address {
     X86Reg16::BX => 0xde,
     X86Reg16::CX => 0xce,
@@ -1847,7 +1847,7 @@ fn emit_memory_read(exec: &mut [u8], memory_base: usize, indirect_address: X86Re
 }
 
 fn emit_memory_write(exec: &mut [u8], memory_base: usize, indirect_address: X86Reg16, source: X86Reg8) -> usize {
-  let fn_pointer = address_as_bytes(crate::mem::memory_write_byte as u64);
+  let fn_pointer = address_as_bytes(bus_write_byte as u64);
   let address_dest = match indirect_address {
     X86Reg16::BX => 0xde,
     X86Reg16::CX => 0xce,
@@ -1892,7 +1892,7 @@ fn emit_memory_write(exec: &mut [u8], memory_base: usize, indirect_address: X86R
 }
 
 fn emit_memory_write_literal(exec: &mut [u8], memory_base: usize, indirect_address: X86Reg16, value: u8) -> usize {
-  let fn_pointer = address_as_bytes(crate::mem::memory_write_byte as u64);
+  let fn_pointer = address_as_bytes(bus_write_byte as u64);
   let address_dest = match indirect_address {
     X86Reg16::BX => 0xde,
     X86Reg16::CX => 0xce,
@@ -1937,7 +1937,7 @@ fn emit_memory_write_literal(exec: &mut [u8], memory_base: usize, indirect_addre
 }
 
 fn emit_write_stack_to_memory(exec: &mut [u8], memory_base: usize, address: u16) -> usize {
-  let fn_pointer = address_as_bytes(crate::mem::memory_write_word as u64);
+  let fn_pointer = address_as_bytes(bus_write_word as u64);
   let memory_pointer = address_as_bytes(memory_base as u64);
   let code = [
     0x50, // push rax
@@ -1975,7 +1975,7 @@ fn emit_write_stack_to_memory(exec: &mut [u8], memory_base: usize, address: u16)
 }
 
 fn emit_write_a_to_memory(exec: &mut [u8], memory_base: usize, address: u16) -> usize {
-  let fn_pointer = address_as_bytes(crate::mem::memory_write_byte as u64);
+  let fn_pointer = address_as_bytes(bus_write_byte as u64);
   let memory_pointer = address_as_bytes(memory_base as u64);
   let code = [
     0x50, // push rax
@@ -2013,7 +2013,7 @@ fn emit_write_a_to_memory(exec: &mut [u8], memory_base: usize, address: u16) -> 
 }
 
 fn emit_read_a_from_memory(exec: &mut [u8], memory_base: usize, address: u16) -> usize {
-  let fn_pointer = address_as_bytes(crate::mem::memory_read_byte as u64);
+  let fn_pointer = address_as_bytes(bus_read_byte as u64);
   let memory_pointer = address_as_bytes(memory_base as u64);
   let code = [
     0x50, // push rax
@@ -2051,7 +2051,7 @@ fn emit_read_a_from_memory(exec: &mut [u8], memory_base: usize, address: u16) ->
 }
 
 fn emit_load_to_high_mem(exec: &mut [u8], memory_base: usize) -> usize {
-  let fn_pointer = address_as_bytes(crate::mem::memory_write_byte as u64);
+  let fn_pointer = address_as_bytes(bus_write_byte as u64);
   let memory_pointer = address_as_bytes(memory_base as u64);
   let code = [
     0x50, // push rax
@@ -2090,7 +2090,7 @@ fn emit_load_to_high_mem(exec: &mut [u8], memory_base: usize) -> usize {
 }
 
 fn emit_load_from_high_mem(exec: &mut [u8], memory_base: usize) -> usize {
-  let fn_pointer = address_as_bytes(crate::mem::memory_read_byte as u64);
+  let fn_pointer = address_as_bytes(bus_read_byte as u64);
   let memory_pointer = address_as_bytes(memory_base as u64);
   let code = [
     0x50, // push rax
@@ -2129,7 +2129,7 @@ fn emit_load_from_high_mem(exec: &mut [u8], memory_base: usize) -> usize {
 }
 
 fn emit_push(source: X86Reg16, memory_base: usize, exec: &mut [u8]) -> usize {
-  let fn_pointer = address_as_bytes(crate::mem::memory_push_word as u64);
+  let fn_pointer = address_as_bytes(bus_push_word as u64);
   let memory_pointer = address_as_bytes(memory_base as u64);
   let load_source_bytes = match source {
     X86Reg16::AX => (0x89, 0xc2, 0x90),
@@ -2178,7 +2178,7 @@ fn emit_push(source: X86Reg16, memory_base: usize, exec: &mut [u8]) -> usize {
 }
 
 fn emit_pop(dest: X86Reg16, memory_base: usize, exec: &mut [u8]) -> usize {
-  let fn_pointer = address_as_bytes(crate::mem::memory_read_word as u64);
+  let fn_pointer = address_as_bytes(bus_read_word as u64);
   let memory_pointer = address_as_bytes(memory_base as u64);
   let stack_offset = match dest {
     X86Reg16::AX => 32,
@@ -2238,7 +2238,7 @@ fn emit_pop(dest: X86Reg16, memory_base: usize, exec: &mut [u8]) -> usize {
 }
 
 fn emit_hl_indirect_partial_read(memory_base: usize, exec: &mut [u8]) -> usize {
-  let fn_pointer = address_as_bytes(crate::mem::memory_read_byte as u64);
+  let fn_pointer = address_as_bytes(bus_read_byte as u64);
   let memory_pointer = address_as_bytes(memory_base as u64);
   let code = [
     0x50, // push rax
@@ -2274,7 +2274,7 @@ fn emit_hl_indirect_partial_read(memory_base: usize, exec: &mut [u8]) -> usize {
 }
 
 fn emit_hl_indirect_partial_write(memory_base: usize, exec: &mut [u8]) -> usize {
-  let fn_pointer = address_as_bytes(crate::mem::memory_write_byte as u64);
+  let fn_pointer = address_as_bytes(bus_write_byte as u64);
   let memory_pointer = address_as_bytes(memory_base as u64);
   let code = [
     0x88, 0x44, 0x24, 0x10, // mov [rsp + 16], al
@@ -2311,7 +2311,7 @@ fn emit_hl_indirect_partial_write(memory_base: usize, exec: &mut [u8]) -> usize 
 /// Read the value stored at (HL) into E
 /// Make sure $rdx can be restored after this result is used
 fn emit_hl_indirect_read(memory_base: usize, exec: &mut [u8]) -> usize {
-  let fn_pointer = address_as_bytes(crate::mem::memory_read_byte as u64);
+  let fn_pointer = address_as_bytes(bus_read_byte as u64);
   let memory_pointer = address_as_bytes(memory_base as u64);
   let code = [
     0x50, // push rax
@@ -2386,6 +2386,36 @@ fn emit_pop_register(reg: X86Reg64, exec: &mut [u8]) -> usize {
       1
     },
   }
+}
+
+// Entry points for translated code. The templates fill only the low 16 (address) or 8
+// (value) bits of esi / edx; whatever the block left in the rest of the register would be
+// passed on, and a `u16` / `u8` parameter of the bus helpers may be assumed zero-extended
+// by the compiler. These take the whole register and truncate.
+
+#[inline(never)]
+extern "sysv64" fn bus_read_byte(areas: *const MemoryAreas, addr: u64) -> u8 {
+  crate::mem::memory_read_byte(areas, addr as u16)
+}
+
+#[inline(never)]
+extern "sysv64" fn bus_write_byte(areas: *mut MemoryAreas, addr: u64, value: u64) {
+  crate::mem::memory_write_byte(areas, addr as u16, value as u8)
+}
+
+#[inline(never)]
+extern "sysv64" fn bus_write_word(areas: *mut MemoryAreas, addr: u64, value: u64) {
+  crate::mem::memory_write_word(areas, addr as u16, value as u16)
+}
+
+#[inline(never)]
+extern "sysv64" fn bus_push_word(areas: *mut MemoryAreas, addr: u64, value: u64) {
+  crate::mem::memory_push_word(areas, addr as u16, value as u16)
+}
+
+#[inline(never)]
+extern "sysv64" fn bus_read_word(areas: *mut MemoryAreas, addr: u64) -> u16 {
+  crate::mem::memory_read_word(areas, addr as u16)
 }
 
 fn address_as_bytes(addr: u64) -> [u8; 8] {
